@@ -42,7 +42,9 @@ CONFIG = {
                     "comments, option statements, field options, json_name, imports, file options, extend blocks), AND the "
                     "reading of that text by bufbuild/protocompile (parse + link, summarised by the harness as a reader sees it: "
                     "elements with their source lines and attributed comments, fields, options as printed name + literal tree + "
-                    "location flags) with the reading by the Lean grammar model Grammar.parseFile of the model's own text. The "
+                    "location flags) with the reading by the Lean grammar model Grammar.parseFile of the model's own text, AND the "
+                    "second print (Go: PrintFile of what protocompile read; model: printText of what the grammar model read): same "
+                    "verdict 'reproduces the text or not' and, when not, the same second text. The "
                     "generated descriptors additionally carry trailing / detached comments in this stream. 'unspecified' on "
                     "both sides when an unstable sort of the printer is not determined by its comparison. Non-trivial = file "
                     "that printed (distinct by op text).",
